@@ -13,6 +13,8 @@ import hmac
 import ipaddress
 import itertools
 import json
+import os
+import shutil
 
 import asyncssh
 from cryptography.hazmat.primitives import serialization
@@ -374,6 +376,103 @@ def shared_worker(job):
     return acc
 
 
+def forms_worker(job):
+    """the same trust data handed over in the other forms the option accepts -- one file name, a list of
+    file names (lines spread over the files, each file with or without a final newline), a loaded
+    SSHKnownHosts object, a callable -- must decide every connection exactly like the in-memory text"""
+    import tempfile
+    acc = core.Acc()
+    tmp = tempfile.mkdtemp(prefix='asyncssh-verif-c04-', dir='/dev/shm')
+    try:
+        for lines in job:
+            text = text_of(lines)
+            for cred in (('key', 'k1'), ('key', 'k2')):
+                ref = connect_once(lines, 22, cred)
+                forms = []
+                for nl1 in ('\n', ''):
+                    for nl2 in ('\n', ''):
+                        paths = []
+                        for i, (ln, nl) in enumerate(zip(lines, (nl1, nl2))):
+                            p = os.path.join(tmp, 'kh%d' % i)
+                            with open(p, 'w') as f:
+                                f.write(text_of((ln,)).rstrip('\n') + nl)
+                            paths.append(p)
+                        forms.append(('list-of-files nl=%r,%r' % (nl1, nl2), list(paths)))
+                single = os.path.join(tmp, 'single')
+                with open(single, 'w') as f:
+                    f.write(text.rstrip('\n'))
+                forms.append(('one-file-no-final-newline', single))
+                forms.append(('object', asyncssh.import_known_hosts(text)))
+                forms.append(('callable', lambda h, a, p, _t=text: asyncssh.import_known_hosts(_t).match(h, a, p)))
+                for label, kh in forms:
+                    if kh is None:
+                        continue
+                    try:
+                        obs = connect_once(lines, 22, cred, kh=kh)
+                    except Exception as exc:        # pylint: disable=broad-except
+                        obs = {'connected': None, 'exc': repr(exc)[:100], 'userauth_sent': None}
+                    acc.add(core.digest(('form', lines, cred, label, obs['connected'])), transitions=1,
+                            sample={'known_hosts_form': label, 'lines': text[:120], 'connected': obs['connected']}
+                            if label.startswith('list') and lines[1][0] == '@revoked' and not obs['connected'] and ref['connected'] is False and cred[1] == lines[1][2] else None)
+                    if (obs['connected'], obs['exc'], obs['userauth_sent']) != (ref['connected'], ref['exc'], ref['userauth_sent']):
+                        acc.violation('trust:form-changes-decision:%s:%s' % (label.split(' ')[0], 'accepted' if obs['connected'] else 'rejected'),
+                                      'known_hosts %r given as %s: connected=%r exc=%r; as in-memory text: connected=%r exc=%r (server key %s)'
+                                      % (text, label, obs['connected'], obs['exc'], ref['connected'], ref['exc'], cred[1]),
+                                      {'kind': 'forms', 'lines': [list(l) for l in lines]})
+    finally:
+        shutil.rmtree(tmp, ignore_errors=True)
+    return acc
+
+
+def rekey_hostkey_case(how):
+    """after a good login the server starts a re-exchange and proves a different host key: an unlisted one,
+    a revoked one, or (control) the same trusted one"""
+    lines = (('', HOST, 'k1'), ('@revoked', '*', 'k2'))
+    text = text_of(lines).encode()
+    w = H.CliWorld(copts=dict(known_hosts=text, host=HOST, port=22))
+    try:
+        rp = w.rp
+        rp.hostkey = ed25519.Ed25519PrivateKey.from_private_bytes(_raw_private(K('k1')))
+        w.login()
+        name = {'rekey-unlisted-key': 'ca2', 'rekey-revoked-key': 'k2', 'rekey-same-key': 'k1'}[how]
+        rp.hostkey = ed25519.Ed25519PrivateKey.from_private_bytes(_raw_private(K(name)))
+        n = rp.kex_done
+        rp.send_kexinit()
+        w.flush()
+        t = w.loop.create_task(w.conn.open_session('x', encoding=None))
+        w.flush()
+        if t.done() and not t.cancelled():
+            t.exception()
+        up = w.conn._transport is not None
+        owner = w.owner
+        return {'up': up, 'rekeyed': rp.kex_done > n, 'exc': type(owner.lost_exc).__name__ if owner is not None and owner.lost else None,
+                'loop_exc': [repr(x.get('exception') or x.get('message'))[:200] for x in w.loop.unretrieved()]}
+    finally:
+        w.close()
+
+
+def rekey_hostkey_worker(_job):
+    acc = core.Acc()
+    for how in ('rekey-same-key', 'rekey-unlisted-key', 'rekey-revoked-key'):
+        try:
+            obs = rekey_hostkey_case(how)
+        except (Livelock, R.RefError) as exc:
+            acc.violation('trust:harness:%s' % how, repr(exc), {'kind': 'rekey', 'how': how})
+            continue
+        acc.add(core.digest((how, obs['up'], obs['exc'])), transitions=2, sample={'re-exchange': how, 'connection_up': obs['up'], 'client_error': obs['exc']})
+        if how == 'rekey-same-key':
+            if not obs['up'] or not obs['rekeyed']:
+                acc.violation('trust:trusted-server-rejected:rekey', repr(obs), {'kind': 'rekey', 'how': how})
+        elif obs['up'] or obs['rekeyed']:
+            acc.violation('trust:untrusted-server-accepted:%s' % how, 'the re-exchange with a host key the configuration does not accept '
+                          'completed (connection up=%s, client error %s)' % (obs['up'], obs['exc']), {'kind': 'rekey', 'how': how})
+        elif obs['exc'] not in ('HostKeyNotVerifiable', 'KeyExchangeFailed'):
+            acc.violation('trust:wrong-error:%s' % how, 'client ended with %s' % obs['exc'], {'kind': 'rekey', 'how': how})
+        if obs['loop_exc']:
+            acc.violation('trust:loop-exception:%s' % how, obs['loop_exc'][0], {'kind': 'rekey', 'how': how})
+    return acc
+
+
 def lying_worker(job):
     acc = core.Acc()
     for how, lines, cred in job:
@@ -425,6 +524,10 @@ def main(tier, seed):
               ('tampered-cert', (('@cert-authority', HOST, 'ca1'),), full[:-1] + (True,)),
               ('blob-of-other-key', (('', '*', 'k1'), ('', '*', 'k2')), ('key', 'k2'))]]
     acc.merge(core.pmap(lying_worker, lying))
+    acc.merge(core.pmap(rekey_hostkey_worker, [0]))
+    ffiles = [((m1, p1, k1), (m2, p2, k2)) for m1 in MARKERS for p1 in (HOST, '*') for k1 in ('k1', 'k2')
+              for m2 in MARKERS for p2 in (HOST, '*') for k2 in ('k1', 'k2')]
+    acc.merge(core.pmap(forms_worker, [ffiles[i::32] for i in range(32)]))
     sp = [HOST, ADDR, '10.0.0.6', 'other.example', '*']
     sfiles = [(('', p1, k1), ('', p2, k2)) for p1 in sp for k1 in ('k1', 'k2') for p2 in sp for k2 in ('k1', 'k2')]
     acc.merge(core.pmap(shared_worker, [sfiles[i::32] for i in range(32)]))
@@ -437,7 +540,7 @@ def main(tier, seed):
             'of 2 lines (second line over a reduced pattern set in quick) x server credential (2 plain keys, '
             '12 host/user certificates: validity windows at the exact boundaries of the virtual clock, '
             'principal sets, wrong type, other CA, altered body) through a real handshake; independent '
-            'predicate decides; lying servers via refpeer; %d files of 0-2 lines x application callbacks accepting '
+            'predicate decides; lying servers via refpeer; a re-exchange in which the server proves another (unlisted, revoked) key; 144 two-line files handed over as one file, lists of files with and without final newlines, object, callable; %d files of 0-2 lines x application callbacks accepting '
             'unlisted host keys / CA keys / both x 7 credentials' % len(cfiles))
     return core.finish(PROP, tier, seed, 'model_checking', acc, t0, rule,
                        {'one_line_files': len(one), 'two_line_files': len(two), 'credentials': len(creds)},
@@ -451,13 +554,21 @@ def main(tier, seed):
 
 def replay(rep):
     r = rep['replay']
-    lines = tuple(tuple(l) for l in r['lines'])
+    lines = tuple(tuple(l) for l in r.get('lines', []))
     cred = tuple(tuple(x) if isinstance(x, list) else x for x in r.get('cred', []))
     if r['kind'] == 'shared':
         acc = shared_worker([lines])
         print(json.dumps(acc.violations[:3], indent=1, default=repr))
         return 1 if acc.violations else 0
     cred = None if 'cred' not in r else r['cred']
+    if r['kind'] == 'forms':
+        acc = forms_worker([tuple(tuple(l) for l in r['lines'])])
+        print(json.dumps(acc.violations[:3], indent=1, default=repr))
+        return 1 if acc.violations else 0
+    if r['kind'] == 'rekey':
+        acc = rekey_hostkey_worker(0)
+        print(json.dumps(acc.violations[:3], indent=1, default=repr))
+        return 1 if acc.violations else 0
     if r['kind'] == 'cb':
         cred = tuple(tuple(x) if isinstance(x, list) else x for x in cred)
         obs = connect_once(lines, 22, cred, cb=tuple(r['cb']))
